@@ -6,10 +6,18 @@ package c05
 import (
 	"context"
 	"math/rand/v2"
+	"runtime"
 	"sync"
+	"sync/atomic"
+	"syscall"
 	"testing"
 	"testing/synctest"
 	"time"
+
+	"github.com/cosi-project/runtime/pkg/controller"
+
+	"verif/harness/gp"
+	"verif/harness/res"
 
 	"verif/harness/rtp"
 	"verif/harness/vk"
@@ -23,7 +31,7 @@ func TestC05(t *testing.T) {
 			"at each quiescent point (30 virtual minutes with nothing runnable) every probe's last observation must equal the store. distinct = (config, write trace) hash; " +
 			"non-trivial = some probe was woken while busy (a wake-up within its busy window) and >= 1 write landed in the same instant as another")
 		c.Assume("probes never write and the runtime has no periodic resync, so every wake-up is caused by an event or the documented initial trigger")
-		c.Require("quiescent_points", "wakes", "reconciles", "map_calls", "late_registered", "late_inputs_added", "cached_kinds", "same_instant_writes", "woken_while_busy")
+		c.Require("quiescent_points", "wakes", "reconciles", "map_calls", "late_registered", "late_inputs_added", "cached_kinds", "same_instant_writes", "woken_while_busy", "slow_watch_establishments_held")
 
 		n := c.N(2000, 150000)
 
@@ -45,7 +53,115 @@ func TestC05(t *testing.T) {
 		}
 
 		wg.Wait()
+
+		// directed family: inputs of a not yet watched kind are added (UpdateInputs / late registration) by several controllers in
+		// the same instant while the watch establishment for that kind is slow, and a write to that kind lands meanwhile
+		for k := 0; k < c.N(150, 6000); k++ {
+			wg.Add(1)
+			sem <- struct{}{}
+
+			go func() {
+				defer wg.Done()
+				defer func() { <-sem }()
+
+				rng := rand.New(rand.NewPCG(uint64(c.Seed)+7, uint64(k)))
+				synctest.Test(t, func(*testing.T) { slowWatchScenario(c, rng, k) })
+			}()
+		}
+
+		wg.Wait()
 	})
+}
+
+// slowWatchScenario: 2-3 probe controllers start with a weak input on kind K0 and add a (weak or strong) input on the so far unwatched
+// kind KL on their first wake-up, all woken by the same K0 write; the first watch establishment on KL is held (real-time yields, no virtual
+// sleep) until the harness has committed a write to KL. Whatever the runtime does with the concurrent UpdateInputs calls, at quiescence
+// every probe's last observation of KL must include that write.
+func slowWatchScenario(c *vk.C, rng *rand.Rand, k int) {
+	k0, kl := rtp.Kinds[0], rtp.Kinds[2]
+	n := 2 + rng.IntN(2)
+	cfg := rtp.Cfg{MaxDelay: 0, NoGateOnReads: true}
+
+	for i := 0; i < n; i++ {
+		late := controller.Input{Namespace: kl.NS, Type: kl.Type, Kind: []controller.InputKind{controller.InputWeak, controller.InputStrong}[rng.IntN(2)]}
+		cfg.Ctrls = append(cfg.Ctrls, rtp.CtrlCfg{
+			Name:   vk.Sprint("S", i),
+			Inputs: []controller.Input{{Namespace: k0.NS, Type: k0.Type, Kind: controller.InputWeak}}, LateInputs: []controller.Input{late}, LateAt: 0,
+		})
+	}
+
+	w, err := rtp.NewWorld(rng, cfg)
+	if err != nil {
+		c.Violation("world-setup-failed", err.Error())
+
+		return
+	}
+
+	var holding, released, first atomic.Bool
+
+	yields := 200 + rng.IntN(3000)
+
+	w.Px.HoldWatch = func(_ string, key gp.Key) {
+		if key.NS != kl.NS || key.Type != kl.Type || !first.CompareAndSwap(false, true) {
+			return
+		}
+
+		holding.Store(true)
+
+		for i := 0; i < 50_000 && !released.Load(); i++ { // bounded (~1 s): the runtime may serialise the callers behind this one
+			realPause(20)
+		}
+	}
+
+	ctx, cancel := context.WithCancel(context.Background())
+	defer cancel()
+
+	s := &rtp.Scenario{W: w, Rng: rng, Ctx: ctx, Cancel: cancel}
+
+	// the writer: as soon as the establishment is being held, let the other controllers run for a while, write to KL, release
+	// (the probes add their late input on their first wake-up, which is the start-up trigger)
+	done := make(chan struct{})
+
+	go func() {
+		defer close(done)
+
+		for i := 0; i < 100_000 && !holding.Load(); i++ {
+			realPause(20)
+		}
+
+		realPause(yields)
+
+		_ = w.Write(gp.WithNoGate(ctx), rtp.WCreate, gp.Key{NS: kl.NS, Type: kl.Type, ID: "x"}, "")
+
+		released.Store(true)
+	}()
+
+	w.Run(ctx)
+
+	<-done // (no further write: a later wake-up of the probes would re-read KL and mask a lost notification)
+
+	rtp.Quiesce(30 * time.Minute)
+
+	problems := rtp.CheckWakeups(w, func(string) bool { return false })
+
+	if holding.Load() {
+		c.Count("slow_watch_establishments_held", 1)
+	}
+
+	c.Count("quiescent_points", 1)
+	c.Count("late_inputs_added", n)
+	c.Case(vk.Hash("slowwatch", k, n, yields), holding.Load())
+
+	cancel()
+	w.WaitRun()
+	synctest.Wait()
+
+	_ = s
+	_ = res.TypeA
+
+	for _, p := range problems {
+		c.Violation(p.Sig, map[string]any{"scenario": "slow-watch", "k": k, "config": cfg, "problem": p, "wakes": w.Wakes(), "log": w.Px.Log()})
+	}
 }
 
 func scenario(c *vk.C, rng *rand.Rand, k int) {
@@ -174,6 +290,14 @@ func scenario(c *vk.C, rng *rand.Rand, k int) {
 	for _, p := range problems {
 		c.Violation(p.Sig, map[string]any{"scenario": k, "config": cfg, "problem": p, "trace": s.Trace, "wakes": wakes, "log": log})
 	}
+}
+
+// realPause blocks the calling thread for us microseconds of REAL time (a raw nanosleep is not virtualised by synctest, and a
+// goroutine inside a system call is not idle for it, so the virtual clock stands still meanwhile).
+func realPause(us int) {
+	ts := syscall.NsecToTimespec(int64(us) * 1000)
+	_ = syscall.Nanosleep(&ts, nil)
+	runtime.Gosched()
 }
 
 func head[T any](s []T, n int) []T {
